@@ -29,7 +29,7 @@ type Check struct {
 }
 
 func (k *Check) input(sc *Scenario, s *Sim) string {
-	return fmt.Sprintf("maxRetries=%d interval=%ds schedule: %s", sc.Cfg.MaxRetries, sc.Cfg.Interval, s.Schedule())
+	return fmt.Sprintf("maxRetries=%d interval=%ds%s schedule: %s", sc.Cfg.MaxRetries, sc.Cfg.Interval, s.Setup(), s.Schedule())
 }
 
 // Exec runs one schedule. When the scheduler loses a thread (a released goroutine does not
